@@ -3,7 +3,7 @@ ALL = ["C%02d" % i for i in range(1, 37)]
 
 BASELINE_OFF = ("cd /repo && GOFLAGS=-mod=mod GOPROXY=off GOSUMDB=off GOTOOLCHAIN=local "
                 "go test -json -vet=off -count=1 -timeout 25m ./...")
-HOOK_COMMITS = ["d9bd3981", "91affb0d", "895625aa", "a0f266b2", "acb6a1da", "2c5176d9", "91558341"]
+HOOK_COMMITS = ["d9bd3981", "91affb0d", "895625aa", "a0f266b2", "acb6a1da", "2c5176d9", "91558341", "756b8833"]
 
 NOTES = ("Every check: TLC design check of the TLA+ module, then TLC-generated behaviours replayed against /repo's "
          "working tree (harness rebuilt on every run with -tags verif) and/or recorded traces validated by TLC. "
@@ -73,6 +73,25 @@ CHECKS = {
                 "FSM are not enumerated. Three defects repaired.",
         "technique": "TLA+ spec Collision + TLC exhaustive check; behaviour replay (all paths + simulation) against a real bgpServer with "
                      "several in-memory connections and a scheduler gate hook",
+    },
+    "C25": {
+        "text": "Conc models the lock and channel steps of the public table and session-control operations (Loc-RIB AddPath/RemovePath, "
+                "Adj-RIB-In AddPath/RemovePath, import / export policy replacement, unregister + register of a session's Adj-RIB-Out, "
+                "dumps, registration at a disposed client manager, peer.stop and an FSM handling an OPEN) over the locks LocRIB.mu, "
+                "ClientManager.mu, AdjRIBOut.mu per session, AdjRIBIn.mu, peer.fsmsMu (RWMutex with writer preference) and the FSM event "
+                "channel. TLC proves the discipline of the code free of deadlock for every combination of 2 and 3 concurrent operations "
+                "(NoDeadlock, LocksOK; thorough: completion under fairness) and shows, as a negative control, that the discipline of "
+                "the code as it was found deadlocks. Every scenario (multiset of concurrent operations; an initial state of the spec) "
+                "runs on fresh real tables with each operation repeated hundreds of times in its own goroutine, under a watchdog, "
+                "followed by a usability probe and, where defined, a final-state comparison; 7 server-level scenarios run on a real "
+                "bgpServer (DisposePeer in every session history, also with another FSM parked before its collision check by a "
+                "scheduler gate; policy replacement through the server during an UPDATE burst).",
+        "note": "The lock steps of Conc are bound to the code by reading, not by instrumentation (no lock tracing): the verdict comes "
+                "only from the real runs (hang = an operation that does not finish within 8 s on fresh objects, reproduced alone). The "
+                "interleaving inside a scenario is left to the Go scheduler (GOMAXPROCS 16 and 2, 300-2000 repetitions); a deadlock "
+                "with a window the repetitions do not hit is missed. Goroutine-leak and data-race freedom are not claimed (C26 n/a). "
+                "Three defects repaired.",
+        "technique": "TLA+ spec Conc (lock/channel discipline) + TLC deadlock-freedom check; spec-generated concurrent scenarios replayed on real tables and a real bgpServer under a watchdog",
     },
     "C27": {
         "text": "BMPWire is the grammar of what a monitored router can send (7 message kinds with byte-exact layouts) and 23 families of "
